@@ -6,19 +6,19 @@ CONSTANTS
   Cursors = {"c1", "c2"}
   Cursor0 = "c1"
   Mutant = "none"
-  Phase = "life"
+  Phase = "play"
   NTok <- MC_Tok6_N
   TokAt <- MC_Tok6_At
   PolSeq <- MC_PolQ
-  Family <- MC_FamNone
-  MaxAttempts = 2
+  Family <- MC_FamQ
+  MaxAttempts = 0
   MaxCommit = 2
-  MaxAbort = 1
-  MaxFail = 1
-  MaxPlay = 0
-  MaxPub = 0
+  MaxAbort = 0
+  MaxFail = 0
+  MaxPlay = 5
+  MaxPub = 3
   Export = FALSE
-VIEW MC_ViewLife
+VIEW MC_ViewPlay
 INVARIANTS TTypeOK BusIsTickScoped DuplicateRejected NoLeakIntoTick TickIsFunctionOfSet TickPartition CommitKeyAsBuilt LastMatSound SinkSound
 PROPERTIES HistoryImmutable OnlyCommitAddsTick AbortLeavesNothing RejectedEmitKeepsBus PublishExact SessionIsolation OnlySubscribedAppear SubsPersist PlaybackIsReadOnly
 CHECK_DEADLOCK FALSE
